@@ -487,6 +487,12 @@ class Domain:
     def at_return(self, node, st):
         pass
 
+    def on_assign_name(self, name, v, st):
+        return v
+
+    def assign_stmt(self, eng, s, st):
+        return False
+
     def same_value(self, a, b):
         if isinstance(a, Opt) and isinstance(b, Opt):
             inner = self.same_value(a.val, b.val) if not (a.val is b.val) else z3.BoolVal(True)
@@ -713,6 +719,11 @@ class Domain:
             if name == 'forall':
                 return z3.ForAll([x], z3.Implies(z3.And(lo <= x, x < hi), body))
             return z3.Exists([x], z3.And(lo <= x, x < hi, body))
+        if name in getattr(self, 'spec_funcs', {}):
+            args = [eng.ev(a, st) for a in e.args]
+            if any(not isz(a) for a in args):
+                return UNK
+            return self.spec_funcs[name](*args)
         if name in self.predicates:
             params, clause = self.predicates[name]
             sub = st.copy()
